@@ -18,8 +18,8 @@ import (
 // C09 — ROM header parse/write round-trips and fields sit at their documented offsets.
 
 type c09Case struct {
-	Header  []byte `json:"header"`   // 80 bytes placed at file offset $7FB0
-	Banks   int    `json:"banks"`    // image has Banks*32 KiB + Tail bytes
+	Header  []byte `json:"header"` // 80 bytes placed at file offset $7FB0
+	Banks   int    `json:"banks"`  // image has Banks*32 KiB + Tail bytes
 	Tail    int    `json:"tail"`
 	FlipPos int    `json:"flip_pos"` // 0..79
 	FlipVal byte   `json:"flip_val"` // new value (forced to differ)
